@@ -290,7 +290,8 @@ def step (d : DSt) (line : String) : DSt × String :=
   | "fev" :: _ => accept d w
   | ["end"] =>
     let s := d.lts
-    (d, s!"end nw={s.gattr.nWorkers} really={reallyTotal s} extra={if s.workers.length = 0 then 0 else s.workers.length - 1} state={s.state}")
+    let nw : Int := if s.state = sInitialized then s.gattr.nWorkers else -1
+    (d, s!"end nw={nw} really={reallyTotal s} extra={if s.workers.length = 0 then 0 else s.workers.length - 1} state={s.state}")
   | _ => (d, "bad-op")
 
 def run (_args : List String) : IO UInt32 := do
